@@ -37,7 +37,7 @@ func checkC05(c *hx.Ctx) {
 	deltas := []uint64{1, 300, 7200}
 	variants := []protoVariant{
 		{"base", func(p *protocol.Protocol) {}},
-		{"MaxDeltaSize=700", func(p *protocol.Protocol) { p.MaxDeltaSize = 700 }},
+		{"MaxDeltaSize=1500", func(p *protocol.Protocol) { p.MaxDeltaSize = 1500 }},
 		{"MaxDeltaSize=100000", func(p *protocol.Protocol) { p.MaxDeltaSize = 100000 }},
 		{"MaxOperationSize=3000", func(p *protocol.Protocol) { p.MaxOperationSize = 3000 }},
 		{"MaxOperationSize=1000000", func(p *protocol.Protocol) { p.MaxOperationSize = 1000000 }},
